@@ -23,7 +23,7 @@ deriving DecidableEq, Repr
 '''
 
 DEFAULTS = dict(initialMmapSize=0, intFmt='', twoDoublesFmt='', intWidth=0, twoDoublesWidth=0,
-                readerExpr='0', writerExpr='0', padByte=0, scanStart=0, lenFieldSkip=0, valueSkip=0, headerPos=0,
+                readerExpr='(0 : Int)', writerExpr='(0 : Int)', padByte=0, scanStart=0, lenFieldSkip=0, valueSkip=0, headerPos=0,
                 freshUsed=0, growFactor=0, positionBack=0, growKind='absent', ctorEffects=[], initValueEffects=[],
                 growBody=[], writeValueEffects=[], packIntegerSlice=0, packTwoDoublesSlice=0, readerUsesHeaderBound=False)
 
@@ -262,3 +262,6 @@ def generate(repo):
         return _emit(True, v)
     except Fail as e:
         return _emit(False, v, str(e))
+
+
+FALLBACK = _emit(False, dict(DEFAULTS), 'extractor raised an exception')
